@@ -35,6 +35,11 @@ CHECKS = {
     category="model_checking", design_ref="4 C04",
     text="Seeded measurement sets over 3-attribute domains (catalogue of 8 integer query matrices, noise 1/2,1,2, projections in any order incl. both orders of a pair) are checked in Loss.tla by TLC: each measurement counted once, the spec gradient is the exact finite difference of the spec loss, and v'Hv <= L v'v on every clique block for all directions in {-1,0,1,2}^cells. The real engine must reproduce the spec's L2 and L1 loss and joint-level gradient for dense/sparse/operator/None x str/list/tuple spellings, its own gradient must be the exact central difference of its own loss, and _lipschitz must dominate the Hessian assembled from its own gradients.",
     note="Noise scales and matrices restricted so the spec loss is an integer; eigsh accuracy observed; custom callable metrics out of scope."),
+ "C09": dict(
+    technique="TLA+ spec of total estimation with witness-certified query catalogue (spec/est/Total.tla, TotalHistory.tla) model-checked by TLC (every witness verified exactly; NoiseFree/AtLeastOne/NoUsable); exact rational totals replayed on all importable copies of the estimator",
+    category="model_checking", design_ref="4 C09",
+    text="TLC verifies the row-space witness (Q^T v = 1 and v = Q w, or Fredholm certificate) of every catalogue matrix of size 1-3 (identity, scaled, prefix, total, stacked, identity+total, blocks, rank-deficient without ones, column, random unimodular) and enumerates every measurement list of length <= 2 x noise variances x dataset sizes x noise-free/perturbed, checking that noise-free data give exactly N and printing the exact rational inverse-variance estimate; each list is executed on FactoredInference, LocalInference and public_inference.estimate_total with dense/sparse/operator spellings (1e-8). Sizes 4-64 reuse the families with witnesses verified in Fraction arithmetic by a transliteration cross-checked against TLC. Call histories (supplied/omitted totals, warm start on/off) on one engine are enumerated by TotalHistory.tla.",
+    note="lsmr observed, not modelled; mixture_inference not importable (jax)."),
 }
 
 NOT_YET = "check not built yet (work in progress, see DESIGN.md section 8 build order)"
